@@ -4,6 +4,8 @@ import (
 	"errors"
 	"io/fs"
 	"os"
+	"strconv"
+	"strings"
 	"syscall"
 
 	"github.com/Trendyol/go-dcp/vsync/vfs"
@@ -33,7 +35,31 @@ func newDisk(w *World) *Disk {
 }
 
 func (d *Disk) ev(op, name string, content []byte, ok bool) {
-	d.w.jl(&journal.Ev{K: journal.KDisk, Vb: -1, S: op, S2: name, Raw: content, B: ok})
+	file, m := splitName(name)
+	d.w.jl(&journal.Ev{K: journal.KDisk, M: m, Vb: -1, S: op, S2: file, Raw: content, B: ok})
+}
+
+// splitName: members open the shared file under the name "<file>#m<k>", which lets the simulated disk
+// attribute every call to a process (and ignore the leftovers of a crashed one).
+func splitName(name string) (string, int) {
+	i := strings.LastIndex(name, "#m")
+	if i < 0 {
+		return name, 0
+	}
+	m, _ := strconv.Atoi(name[i+2:])
+	return name[:i], m
+}
+
+func (d *Disk) deadCaller(name string) bool {
+	_, m := splitName(name)
+	d.w.mu.Lock()
+	defer d.w.mu.Unlock()
+	for _, mem := range d.w.members {
+		if mem.id == m && mem.crashed {
+			return true
+		}
+	}
+	return false
 }
 
 func (d *Disk) park() {
@@ -46,6 +72,12 @@ func (d *Disk) park() {
 
 func (d *Disk) writeFile(name string, data []byte, _ os.FileMode) error {
 	w := d.w
+	if d.deadCaller(name) {
+		w.note("zombie disk write ignored: %s", name)
+		return nil
+	}
+	full := name
+	name, _ = splitName(name)
 	w.mu.Lock()
 	fail := d.failOp
 	d.failOp = ""
@@ -57,50 +89,53 @@ func (d *Disk) writeFile(name string, data []byte, _ os.FileMode) error {
 		w.mu.Lock()
 		d.files[name] = []byte{}
 		w.mu.Unlock()
-		d.ev("write-fail", name, nil, false)
+		d.ev("write-fail", full, nil, false)
 		return &fs.PathError{Op: "write", Path: name, Err: syscall.ENOSPC}
 	case "eio":
-		d.ev("write-fail", name, nil, false)
+		d.ev("write-fail", full, nil, false)
 		return &fs.PathError{Op: "open", Path: name, Err: syscall.EIO}
 	case "short":
 		w.mu.Lock()
 		d.files[name] = append([]byte{}, data[:len(data)/2]...)
 		w.mu.Unlock()
-		d.ev("write-short", name, data[:len(data)/2], false)
+		d.ev("write-short", full, data[:len(data)/2], false)
 		return &fs.PathError{Op: "write", Path: name, Err: errors.New("short write")}
 	}
 	w.mu.Lock()
 	d.files[name] = []byte{}
 	w.mu.Unlock()
 	if seams {
-		d.ev("trunc", name, nil, true)
+		d.ev("trunc", full, nil, true)
 		d.park()
 		w.mu.Lock()
 		d.files[name] = append([]byte{}, data[:len(data)/2]...)
 		w.mu.Unlock()
-		d.ev("chunk", name, data[:len(data)/2], true)
+		d.ev("chunk", full, data[:len(data)/2], true)
 		d.park()
 	}
 	w.mu.Lock()
 	d.files[name] = append([]byte{}, data...)
 	w.mu.Unlock()
-	d.ev("write", name, data, true)
+	d.ev("write", full, data, true)
 	return nil
 }
 
 func (d *Disk) readFile(name string) ([]byte, error) {
+	full := name
+	name, _ = splitName(name)
 	d.w.mu.Lock()
 	b, ok := d.files[name]
 	d.w.mu.Unlock()
 	if !ok {
-		d.ev("read", name, nil, false)
+		d.ev("read", full, nil, false)
 		return nil, &fs.PathError{Op: "open", Path: name, Err: fs.ErrNotExist}
 	}
-	d.ev("read", name, b, true)
+	d.ev("read", full, b, true)
 	return append([]byte{}, b...), nil
 }
 
 func (d *Disk) remove(name string) error {
+	name, _ = splitName(name)
 	d.w.mu.Lock()
 	delete(d.files, name)
 	d.w.mu.Unlock()
